@@ -105,6 +105,16 @@ def _const_of(node, binding=None):
         return 0
     if k == "CXXConstructExpr" and not (node.get("c") or []) and node.get("t") in ("int", "bool"):
         return 0
+    if k == "UnaryOperator" and node.get("op") in ("++", "--") and not node.get("postfix"):
+        v = _const_of((node.get("c") or [None])[0], binding)
+        if v is not None:
+            return v + (1 if node["op"] == "++" else -1)
+        return None
+    if k == "BinaryOperator" and node.get("op") in ("+", "-") and len(node.get("c") or []) == 2:
+        a, b = (_const_of(x, binding) for x in node["c"])
+        if a is not None and b is not None:
+            return a + b if node["op"] == "+" else a - b
+        return None
     return None
 
 
@@ -333,6 +343,9 @@ class Interp:
         self.memo = {}
         self.active = set()
         self.visited_fns = set()
+        self.called = {}     # memo key -> set of function qns invoked (transitively) in that run
+        self.rec_hit = set()
+        self.approx = {}
         self.idx = {f: i for i, f in enumerate(model.flag_names)}
 
     def _set(self, val, flag, v):
@@ -356,6 +369,18 @@ class Interp:
         if tf and tf[1] in self.idx:
             i = self.idx[tf[1]]
             return frozenset(x for x in st if (x[i] != 0) == truth)
+        if k == "CXXMemberCallExpr" and not F.call_args(cond):
+            # a parameterless predicate on `this` whose body is a single `return <expr over flags>`
+            obj = F.call_object(cond)
+            if obj is not None and obj.get("k") == "CXXThisExpr" and cond.get("callee"):
+                callee = self.m.resolve(cond.get("calleeKey"), strip_targs(cond["callee"]),
+                                        bool((cond.get("c") or [{}])[0].get("qual")))
+                if callee is not None and callee.body is not None and not self.m.direct_writes(callee):
+                    rets = [x for x in callee.walk() if x.get("k") == "ReturnStmt"]
+                    stmts = callee.body.get("c") or []
+                    if len(rets) == 1 and len(stmts) == 1 and rets[0].get("c"):
+                        return self.refine(st, rets[0]["c"][0], truth, {})
+            return st
         if k == "BinaryOperator" and cond.get("op") in ("==", "!=", "<", "<=", ">", ">=") and len(c) == 2:
             op = cond["op"]
             l, r = c
@@ -379,16 +404,35 @@ class Interp:
         if key in self.memo:
             return self.memo[key]
         if key in self.active:
-            return (frozenset(self.m.all_valuations()), [])
+            # recursion: least fixed point, start from "no normal exit yet"
+            self.rec_hit.add(key)
+            return (self.approx.get(key, frozenset()), [])
         self.active.add(key)
+        self.called[key] = set()
+        self.approx[key] = frozenset()
         try:
-            res = self._run(fn, val, binding)
+            rounds = 0
+            while True:
+                rounds += 1
+                res = self._run(fn, val, binding, self.called[key])
+                if key not in self.rec_hit or res[0] == self.approx[key] or rounds > 64:
+                    break
+                self.approx[key] = res[0]
+                # results memoised under the previous approximation are stale
+                for k2 in [k for k in self.memo if k not in self.active]:
+                    del self.memo[k2]
         finally:
             self.active.discard(key)
         self.memo[key] = res
         return res
 
-    def _run(self, fn, val, binding):
+    def calls_of(self, fn, val, binding=None):
+        key = (fn.key, val, tuple(sorted((binding or {}).items())))
+        return self.called.get(key, set())
+
+    def _run(self, fn, val, binding, called=None):
+        if called is None:
+            called = set()
         self.visited_fns.add(fn.key)
         if fn.body is None or not fn.rec.get("cfg"):
             return (frozenset([val]), [])
@@ -458,8 +502,10 @@ class Interp:
                                 if v is not None:
                                     bnd[p["decl"]] = v
                             new = set()
+                            called.add(callee.qn)
                             for x in st:
                                 ex, sub = self.run(callee, x, bnd)
+                                called |= self.calls_of(callee, x, bnd)
                                 new |= ex
                                 for sv in sub:
                                     viol.setdefault((sv["in"], sv["field"]), sv)
@@ -695,3 +741,126 @@ def rule_lazy_solvers(ctx):
 def rule_lazy_adj(ctx):
     n = rule_lazy(ctx, {"Adj"})
     ctx.floor(RULE, 5, n, "Adj typestate obligations")
+
+
+
+def rule_lazy_cascade(ctx):
+    """Invalidation cascades (table 'cascades'): for every enumerator k of the stage enum, the update
+    function entered with that constant leaves the flags of stage k and of all later stages reset on
+    every exit."""
+    table = engine.load_table("lazy.json")
+    fx = ctx.facts
+    n = 0
+    for cname, spec in table.get("cascades", {}).items():
+        flags = spec["flags_in_stage_order"]
+        model = ClassModel(fx, cname, {"flags": {f: {"domain": "bool"} for f in flags}})
+        interp = Interp(model)
+        fn = fx.fn(spec["function"], 1)
+        ctx.saw(fn)
+        enum = fx.enum(spec["enum"])
+        ens = enum["enumerators"]
+        if len(ens) != len(flags):
+            raise AnalysisBroken("cascade %s: %d stage enumerators but %d flags in the table"
+                                 % (cname, len(ens), len(flags)))
+        allv = model.all_valuations()
+        cases = [(e["name"], e["v"], k) for k, e in enumerate(ens)]
+        for name, val, k in cases:
+            exits = set()
+            for v in allv:
+                ex, _ = interp.run(fn, v, {fn.params[0]["decl"]: val})
+                exits |= ex
+            for f in flags[k:]:
+                i = model.flag_names.index(f)
+                stale = [x for x in exits if x[i] != 0]
+                key = "CASCADE:%s:%s:%s" % (short(model.name), name, f)
+                n += 1
+                ctx.report(RULE, key, not stale and bool(exits), fn.where(), fn.short,
+                           "" if not stale and exits else
+                           "update(%s) can return with %s still set: results of that stage would not be recomputed"
+                           % (name, f))
+        # designated callers reach the cascade with the required stage constant on every path
+        for caller, stage in spec.get("callers_must_reach", {}).items():
+            cf = fx.fn(caller)
+            ctx.saw(cf)
+            want = [e["v"] for e in ens if e["name"] == stage][0]
+            calls = [c for c in cf.calls() if strip_targs(c.get("callee") or "") == fn.qn
+                     and _const_of((F.call_args(c) or [None])[0]) == want]
+            ok = any(_postdominates_entry(cf, c) for c in calls)
+            n += 1
+            ctx.report(RULE, "CASCADE:%s:%s->update(%s)" % (short(model.name), short(cf.qn), stage), ok,
+                       cf.where(), cf.short,
+                       "" if ok else "%s must call update(%s) on every path" % (short(cf.qn), stage))
+    ctx.floor(RULE, 10, n, "cascade obligations")
+
+
+def _calls_unconditionally(model, fn, target):
+    for c in fn.calls():
+        if strip_targs(c.get("callee") or "") == target.qn and _postdominates_entry(fn, c):
+            return True
+    return False
+
+
+def _postdominates_entry(fn, node):
+    cfg = fn.cfg
+    pb = cfg.block_of(node)
+    if pb is None:
+        return False
+    return pb[0] in cfg.pdom.get(cfg.entry, set())
+
+
+
+def rule_lazy_chain(ctx):
+    """Stage chains (table 'chains'): every stage function, entered in a state where the previous
+    stage is not established, invokes the previous stage function, and every normal exit leaves the
+    state marking its own stage as done; consumers entered before their stage invoke the stage function."""
+    table = engine.load_table("lazy.json")
+    fx = ctx.facts
+    n = 0
+    for cname, spec in table.get("chains", {}).items():
+        model = ClassModel(fx, cname, {"flags": spec["flags"]})
+        interp = Interp(model)
+        sname = short(model.name)
+        stages = spec["stages"]     # [{fn, done: predicate over flag}]
+        fns = [fx.fn(st["fn"], 0) for st in stages]
+        preds = [Pred(st["done"], model.consts) for st in stages]
+        allv = model.all_valuations()
+        for k, (st, fn, pred) in enumerate(zip(stages, fns, preds)):
+            ctx.saw(fn)
+            exits = set()
+            missing_prev = []
+            for v in allv:
+                ex, _ = interp.run(fn, v)
+                exits |= ex
+                if k > 0 and not preds[k - 1].holds1(model.as_dict(v)) and not pred.holds1(model.as_dict(v)):
+                    if fns[k - 1].qn not in interp.calls_of(fn, v):
+                        missing_prev.append(model.as_dict(v))
+            n += 1
+            badx = [x for x in exits if not pred.holds1(model.as_dict(x))]
+            ctx.report(RULE, "CHAIN:%s:%s:marks-done" % (sname, fn.name), bool(exits) and not badx,
+                       fn.where(), fn.short,
+                       "" if exits and not badx else "%s can return without establishing %s (exit state %s)"
+                       % (fn.name, pred.text, model.as_dict(badx[0]) if badx else "no normal exit"))
+            if k > 0:
+                n += 1
+                ctx.report(RULE, "CHAIN:%s:%s:ensures-%s" % (sname, fn.name, fns[k - 1].name),
+                           not missing_prev, fn.where(), fn.short,
+                           "" if not missing_prev else "%s entered with %s does not run %s first"
+                           % (fn.name, missing_prev[0], fns[k - 1].name))
+        for cons in spec.get("consumers", []):
+            cf = fx.fn(cons["fn"])
+            ctx.saw(cf)
+            k = [i for i, st in enumerate(stages) if st["fn"] == cons["needs_stage"]][0]
+            missing = []
+            for v in allv:
+                interp.run(cf, v)
+                if not preds[k].holds1(model.as_dict(v)) and fns[k].qn not in interp.calls_of(cf, v) \
+                        and not _calls_unconditionally(model, cf, fns[k]):
+                    missing.append(model.as_dict(v))
+            n += 1
+            ctx.report(RULE, "CHAIN:%s:%s:ensures-%s" % (sname, cf.name, fns[k].name), not missing,
+                       cf.where(), cf.short,
+                       "" if not missing else "%s entered with %s does not run %s first"
+                       % (cf.name, missing[0], fns[k].name))
+        for k in interp.visited_fns:
+            ctx.analysed_functions.add(k)
+    ctx.floor(RULE, 8, n, "stage-chain obligations")
